@@ -12,7 +12,13 @@ oracle_c19 — line protocol (the configuration is the one regenerated from the 
   `cover <base>` → `covered=<sorted distinct chars of genNonce base 1 [v], v < 2·|base|+2>` | `panic`
   `sample <base> <len> <count>` → `len-ok=1 alphabet-ok=1 covered=<sorted distinct reachable chars>` | `panic`
 `cur`/`hcur` = code / hash of the last accepted send to this (area, phone) pair (script-level bookkeeping,
-independent of the key format).  `_` stands for the empty string in <area>, <phone>, <base>.  `k` numbers the accepted sends of the script from 1.
+independent of the key format).  <area>, <phone> and the text of `lit:` are BYTE strings: printable ASCII 0x21–0x7E stands for itself except `%`, any byte may be written
+`%XX` (two upper-case hex digits), `_` alone is the empty string.  `_` stands for the empty string in <base> too (alphabets are plain ASCII).
+  `bulk <cap> <n> <k>` (n ≤ 200000) → `verify=<r> resend=<r>`: fresh instance (mock, CodeLen 4, MaxCount 3, MaxVerifyCount 3, all durations 9223372037 ms),
+      n sends to generated pairs (86, 13900000000+i), then pair k verified with its code and hash and re-sent; answered by the closed form
+      `bulkClosed` (= the model run, theorem `bulk_spec`), for n ≤ 300 by the model run itself.
+  `stress <g> <n>` (1 ≤ g ≤ 64, n ≤ 100000) → `stress=ok`: g concurrent callers on distinct phones in a child process must not crash it (not modelled: the
+      property speaks of sequences; the answer is constant).  `k` numbers the accepted sends of the script from 1.
 -/
 open Nv Nv.C19
 
@@ -26,6 +32,23 @@ structure OState where
 def OState.init : OState := ⟨false, ⟨0, false, 0, 0, 0, 0, 0, 0, false⟩, State.init, [], []⟩
 
 def tok (s : String) : Str := if s == "_" then [] else s.toList
+
+def hexVal (c : Char) : Option Nat :=
+  if c.isDigit then some (c.toNat - '0'.toNat)
+  else if 'A'.toNat ≤ c.toNat ∧ c.toNat ≤ 'F'.toNat then some (c.toNat - 'A'.toNat + 10) else none
+
+/-- `%XX` decoding into bytes (one `Char` < 256 per byte); a stray `%` makes the token ill-formed -/
+def unescape : Str → Option Str
+  | [] => some []
+  | '%' :: a :: b :: rest =>
+    match hexVal a, hexVal b, unescape rest with
+    | some x, some y, some r => some (Char.ofNat (x * 16 + y) :: r)
+    | _, _, _ => none
+  | '%' :: _ => none
+  | c :: rest => (unescape rest).map (c :: ·)
+
+/-- byte-string token: `_` = empty, else `%XX`-unescaped -/
+def tokB (s : String) : Option Str := if s == "_" then some [] else unescape s.toList
 
 /-- strict decimal: 1…9 digits, nothing else (the Go runner parses the same way) -/
 def natOf (l : Str) : Option Nat :=
@@ -95,7 +118,7 @@ def parseCodeBase (o : OState) (pair : Str × Str) (w : String) : Option Code :=
   let l := w.toList
   if w == "cur" then some (((lookupPair pair o.cur).map (·.1)).getD noCode)
   else if w == "wrong" then some (wrongOf (((lookupPair pair o.cur).map (·.1)).getD (.lit [])))
-  else if l.take 4 == "lit:".toList then some (.lit (l.drop 4))
+  else if l.take 4 == "lit:".toList then (unescape (l.drop 4)).map .lit
   else match l with
     | 'c' :: rest => (natOf rest).map (fun k => (lookupSend k o.sends).getD noCode)
     | _ => none
@@ -158,21 +181,36 @@ def step (o : OState) (line : String) : OState × String :=
     | none => (o, "bad-op")
   | ["send", a, p] =>
     if !o.inited then (o, "bad-op") else
-    let (a, p) := (tok a, tok p)
-    let r := send cfg o.pr o.st a p
-    match r.2.accepted with
-    | some k =>
-      let code := genCode o.pr p k
-      ({ o with st := r.1, cur := ((a, p), (code, k)) :: o.cur, sends := (k, code) :: o.sends }, showSend r.2)
-    | none => ({ o with st := r.1 }, showSend r.2)
+    match tokB a, tokB p with
+    | some a, some p =>
+      let r := send cfg o.pr o.st a p
+      match r.2.accepted with
+      | some k =>
+        let code := genCode o.pr p k
+        ({ o with st := r.1, cur := ((a, p), (code, k)) :: o.cur, sends := (k, code) :: o.sends }, showSend r.2)
+      | none => ({ o with st := r.1 }, showSend r.2)
+    | _, _ => (o, "bad-op")
   | ["verify", a, p, cw, hw] =>
     if !o.inited then (o, "bad-op") else
-    let (a, p) := (tok a, tok p)
-    match parseCode o (a, p) cw, parseHash o (a, p) hw with
-    | some code, some h =>
-      let r := verify cfg o.pr o.st a p code h
-      ({ o with st := r.1 }, showVerify r.2)
+    match tokB a, tokB p with
+    | some a, some p =>
+      match parseCode o (a, p) cw, parseHash o (a, p) hw with
+      | some code, some h =>
+        let r := verify cfg o.pr o.st a p code h
+        ({ o with st := r.1 }, showVerify r.2)
+      | _, _ => (o, "bad-op")
     | _, _ => (o, "bad-op")
+  | ["stress", gw, nw] =>
+    match natOf gw.toList, natOf nw.toList with
+    | some g, some n => if g < 1 || g > 64 || n > 100000 then (o, "bad-op") else (o, "stress=ok")
+    | _, _ => (o, "bad-op")
+  | ["bulk", cw, nw, kw] =>
+    match natOf cw.toList, natOf nw.toList, natOf kw.toList with
+    | some cap, some n, some k =>
+      if n > 200000 then (o, "bad-op") else
+      let r := if n ≤ 300 then bulkRun cfg cap n k else bulkClosed cap n k
+      (o, s!"verify={showVerify r.1} resend={showSend r.2}")
+    | _, _, _ => (o, "bad-op")
   | ["nonce", b, n, vs] =>
     match intOf n.toList, parseVals vs with
     | some n, some vals =>
